@@ -163,7 +163,16 @@ func c20Deliver(c *deliverCtx) {
 				w.violate("encode_altered_message", "decoded:"+d, "plain encoding of a decoded message altered it at %s:\n before %s\n after  %s", d, jsonOf(snap0), jsonOf(after))
 				return
 			}
+			first := clone(enc)
 			scribble(enc, "complement", 0)
+			scribble(c.buf, "random", uint64(w.step)+99) // the receive buffer is reused in between
+			var enc2 []byte
+			r2 := &callResult{}
+			guard(r2, func() { enc2, r2.Err = c.msg.Encode() })
+			if r2.class() == "ok" && !bytes.Equal(first, enc2) {
+				w.violate("encode_not_deterministic", "decoded", "two encodings of the same unmodified decoded message differ after the receive buffer was reused (%d vs %d octets)", len(first), len(enc2))
+				return
+			}
 			w.stats.inc("c20_decoded_reencoded")
 		}
 	}
